@@ -434,6 +434,24 @@ pub fn pwhash(outlen: usize, pw: &[u8], salt: &[u8; 16], ops: u64, mem: usize, a
     }
 }
 
+extern "C" {
+    /// libsodium's internal Argon2 entry point (argon2.c; present in the statically linked library): RFC 9106 for any t >= 1
+    fn argon2_hash(
+        t_cost: u32, m_cost: u32, parallelism: u32, pwd: *const u8, pwdlen: usize, salt: *const u8, saltlen: usize,
+        hash: *mut u8, hashlen: usize, encoded: *mut u8, encodedlen: usize, type_: i32,
+    ) -> i32;
+}
+
+/// Argon2 v1.3, one lane, straight from libsodium's core: covers parameter sets crypto_pwhash refuses (Argon2i with t < 3)
+pub fn argon2_core(outlen: usize, pw: &[u8], salt: &[u8], t: u32, m_kib: u32, alg: i32) -> Option<Vec<u8>> {
+    let mut out = vec![0u8; outlen];
+    let rc = unsafe {
+        ffi::sodium_init();
+        argon2_hash(t, m_kib, 1, pw.as_ptr(), pw.len(), salt.as_ptr(), salt.len(), out.as_mut_ptr(), out.len(), std::ptr::null_mut(), 0, alg)
+    };
+    if rc == 0 { Some(out) } else { None }
+}
+
 /// libsodium's verdict on an encoded Argon2 hash (`$argon2id$v=19$m=..,t=..,p=1$salt$hash`).  The decoder takes salts
 /// and hashes of ANY length (>= 8 / >= 16 bytes) and recomputes Argon2 over the decoded salt, so this is an
 /// independent Argon2 for parameter sets crypto_pwhash itself cannot express (salt length != 16).
